@@ -177,6 +177,21 @@ class CellSim(object):
         self.app_order.append(name)
         return name
 
+    def op_clone(self, idx, prio, shrink):
+        """Submit an instance of the same shape as an existing one (same
+        allocation, affinity, lease, traits), with demand <= and the given
+        priority."""
+        placed = [n for n in self.app_order if self.cell.apps[n].server]
+        pool = placed if placed and idx % 3 else self.app_order
+        if not pool:
+            return None
+        src = self.decl_apps[pool[idx % len(pool)]]
+        demand = [max(0, d - s) for d, s in zip(src['demand'], shrink)]
+        aff_i = [a['name'] for a in self.affs].index(src['aff'])
+        return self.op_app(src['alloc'], aff_i, demand, prio, src['lease'],
+                           src['retention'], None, src['inst_traits'],
+                           src['once'])
+
     def op_rm(self, idx):
         app = self._app(idx)
         if app is None:
